@@ -128,6 +128,14 @@ def g_deep(st):
     return case
 
 
+REPEAT_OPENERS = ['{', '[', '$', '\\(', '\\[', '\\begin{e}', '\\item ', '\\item', '\\left(', '\\foo{', '\\begin{itemize}',
+                  '\\begin{equation}', '\\x[', '\\section{', '\\newcommand{', '\\begin{', '\\end{']
+
+REPEAT_CLOSERS = {'{': '}', '[': ']', '$': '$', '\\(': '\\)', '\\[': '\\]', '\\begin{e}': '\\end{e}', '\\left(': '\\right)',
+                  '\\foo{': '}', '\\begin{itemize}': '\\end{itemize}', '\\begin{equation}': '\\end{equation}',
+                  '\\x[': ']', '\\section{': '}', '\\newcommand{': '}', '\\begin{': '}', '\\end{': '}'}
+
+
 def g_repeat(st):
     """A short unit of alphabet symbols repeated up to the depth bound: the
     classic shape for unbounded re-scanning or backtracking (nesting depth 40)."""
@@ -138,6 +146,20 @@ def g_repeat(st):
                    '\\begin{equation}', '\\x[']
         unit[r.randrange(len(unit))] = openers[r.randrange(len(openers))]
     k = r.randrange(5, 41)
+    if r.random() < 0.35:
+        # two openers alternating (optionally with a symbol between): re-reading
+        # compounds when one construct's look-ahead runs through the other one
+        # (\begin{e}\c{ ..., \item \a{ ...); deep enough for doubling to show
+        unit = [REPEAT_OPENERS[r.randrange(len(REPEAT_OPENERS))], REPEAT_OPENERS[r.randrange(len(REPEAT_OPENERS))]]
+        if r.random() < 0.3:
+            unit.insert(r.randrange(3), simreader.ALPHABET[r.randrange(len(simreader.ALPHABET))])
+        k = r.randrange(12, 21)        # two constructs per round: nesting depth 24-40
+        if r.random() < 0.5:
+            # the same nest, closed: a valid document whose depth is the depth bound
+            closers = [REPEAT_CLOSERS.get(u, '') for u in unit]
+            wire = unit * k + ['x'] + [c for c in closers[::-1] if c] * k
+            return {'mode': 'repeat', 'profile': 'repeat-closed', 'plan': 'symbols', 'wire': wire, 'faults': [],
+                    'form': _form(st), 'skip_envs': _skip_envs(st), 'recover': False, 'depth': 2 * k}
     wire = unit * k
     tail = [simreader.ALPHABET[r.randrange(len(simreader.ALPHABET))] for _ in range(r.randrange(0, 3))]
     return {'mode': 'repeat', 'profile': 'repeat', 'plan': 'symbols', 'wire': wire + tail, 'faults': [],
